@@ -567,7 +567,7 @@ PROP = Property(
     id="C09",
     title="A drawn region becomes a selection of exactly the points the region contains",
     theorems=["C09.range_numeric", "C09.from_range_positions", "C09.range_categorical", "C09.categorical_roi",
-              "C09.rect_categorical", "C09.polygon_cat_cat", "C09.polygonised_cat_num", "C09.polygon_cat_num",
+              "C09.rect_categorical", "C09.polygon_cat_cat", "C09.polygonised_cat_num", "C09.polygon_cat_num", "C09.rect_rotated_cat_num",
               "C09.numeric_numeric", "C09.category_order_irrelevant", "C09.categories_ok", "C09.roi_selection",
               "C09.rect_categorical_rotated_witness"],
     families=[FromRange(), Mpl(), Pli(), Sel()],
